@@ -87,7 +87,8 @@ class WrapperRig(H.H11Rig):
         return obs
 
 
-OPENINGS = ["plain", "plain-post", "h2c", "h2c-body", "prior", "prior+frames", "websocket", "h2c-then-more"]
+OPENINGS = ["plain", "plain-post", "h2c", "h2c-body", "prior", "prior+frames", "websocket", "h2c-then-more", "h2c-chunked",
+            "h2c-empty-settings"]
 
 
 def opening_bytes(kind):
@@ -106,6 +107,14 @@ def opening_bytes(kind):
         if kind == "h2c-then-more":
             data += c.data_to_send()
         return data, c
+    if kind == "h2c-empty-settings":
+        c.initiate_upgrade_connection()
+        return (b"GET /up?x=1 HTTP/1.1\r\nHost: example.com\r\nConnection: Upgrade, HTTP2-Settings\r\nUpgrade: h2c\r\nHTTP2-Settings: "
+                b"\r\n\r\n"), c
+    if kind == "h2c-chunked":
+        settings = c.initiate_upgrade_connection()
+        return (b"POST /up HTTP/1.1\r\nHost: example.com\r\nConnection: Upgrade, HTTP2-Settings\r\nUpgrade: h2c\r\nHTTP2-Settings: "
+                + settings + b"\r\nTransfer-Encoding: chunked\r\n\r\n2\r\nhi\r\n0\r\n\r\n"), c
     if kind == "h2c-body":
         settings = c.initiate_upgrade_connection()
         return (b"POST /up HTTP/1.1\r\nHost: example.com\r\nConnection: Upgrade, HTTP2-Settings\r\nUpgrade: h2c\r\nHTTP2-Settings: "
@@ -175,16 +184,16 @@ def e2e_outcome(kind, split):
     outcome = {"scopes": [(r["scope"]["type"], r["scope"]["http_version"], r["scope"]["path"]) for r in records]}
     errs = [(n, repr(e)) for n, e in d.errors() if not n.startswith("app")]
     outcome["errors"] = errs
-    if kind in ("plain", "plain-post", "h2c-body"):
+    if kind in ("plain", "plain-post", "h2c-body", "h2c-chunked"):
         outcome["wire"] = wire.split(b"\r\n")[0]
         outcome["bodies"] = [b"".join(m.get("body", b"") for m in r["received"] if m["type"] == "http.request") for r in records]
     elif kind == "websocket":
         outcome["wire"] = wire.split(b"\r\n")[0]
     else:
-        if kind in ("h2c", "h2c-then-more"):
+        if kind in ("h2c", "h2c-then-more", "h2c-empty-settings"):
             head, _, rest = wire.partition(b"\r\n\r\n")
             outcome["wire"] = head.split(b"\r\n")[0]
-            if kind == "h2c":
+            if kind in ("h2c", "h2c-empty-settings"):
                 rig.feed(client.data_to_send())
                 rig.run()
             # a further request on the upgraded connection must be served (nothing of the client's preface was lost)
@@ -208,6 +217,9 @@ EXPECT = {
     "plain": {"scopes": [("http", "1.1", "/p")], "wire": b"HTTP/1.1 200 "},
     "plain-post": {"scopes": [("http", "1.1", "/p")], "wire": b"HTTP/1.1 200 ", "bodies": [b"abc"]},
     "h2c-body": {"scopes": [("http", "1.1", "/up")], "wire": b"HTTP/1.1 200 ", "bodies": [b"hi"]},
+    "h2c-chunked": {"scopes": [("http", "1.1", "/up")], "wire": b"HTTP/1.1 200 ", "bodies": [b"hi"]},
+    "h2c-empty-settings": {"scopes": [("http", "2", "/up"), ("http", "2", "/after")], "wire": b"HTTP/1.1 101 ",
+                           "h2": [("ResponseReceived", 1), ("ResponseReceived", 3), ("StreamEnded", 1), ("StreamEnded", 3)]},
     "websocket": {"scopes": [("websocket", "1.1", "/ws")], "wire": b"HTTP/1.1 101 "},
     "h2c": {"scopes": [("http", "2", "/up"), ("http", "2", "/after")], "wire": b"HTTP/1.1 101 ",
             "h2": [("ResponseReceived", 1), ("ResponseReceived", 3), ("StreamEnded", 1), ("StreamEnded", 3)]},
